@@ -115,6 +115,7 @@ var getters = map[string]getter{
 	"GetPerMessageBurnLimit":               {[]string{"str"}, "struct:PerMessageBurnLimit", true},
 	"ReserveAndIncrementNonce":             {nil, "struct:Nonce", false},
 	"GetNextAvailableNonce":                {nil, "struct:Nonce", true},
+	"GetTokenPairHex":                      {[]string{"u32", "str"}, "struct:TokenPair", true},
 	"GetAllPerMessageBurnLimits":           {nil, "list:PerMessageBurnLimit", false},
 	"GetAllTokenPairs":                     {nil, "list:TokenPair", false},
 	"GetAllUsedNonces":                     {nil, "list:Nonce", false},
@@ -184,6 +185,7 @@ type hTr struct {
 	derefs  map[string]string // Go expression known to be a non-nil pointer here -> the Gallina name of what it points to
 	nderef  int
 	valTy   string // result type of a value-returning function (kind "val")
+	ntmp    int
 }
 
 func (h *hTr) bad(format string, a ...interface{}) { panic(untranslatable(fmt.Sprintf(format, a...))) }
@@ -217,6 +219,8 @@ func (h *hTr) coerce(x, have, want, what string) string {
 		return x // string(b) / []byte(s): the model represents both as byte lists
 	case have == "slice" && want == "list:Attester":
 		return "(values " + x + ")"
+	case strings.HasPrefix(want, "?") && have == "struct:"+want[1:]:
+		return x
 	}
 	h.bad("%s: %s where %s is expected", what, have, want)
 	return ""
@@ -344,6 +348,15 @@ func (h *hTr) expr(e ast.Expr) (string, string) {
 			}
 		}
 	case *ast.CallExpr:
+		if m, as, ok := h.keeperCall(e); ok {
+			// a keeper getter inside an expression: the call is made first (reads are pure)
+			if g, known := getters[m]; known && !g.found {
+				h.ntmp++
+				name := fmt.Sprintf("tmp%d", h.ntmp)
+				h.lines = append(h.lines, fmt.Sprintf("%s <- go_%s%s ;;", name, m, h.args(m, as, g.args)))
+				return name, g.res
+			}
+		}
 		fn := h.t.show(v.Fun)
 		switch {
 		case fn == "types.DefaultGenesis" && len(v.Args) == 0:
@@ -543,6 +556,9 @@ func (h *hTr) expr(e ast.Expr) (string, string) {
 		pre, ty := "go_ev_", "event"
 		if stateStructs[name] {
 			pre, ty = "go_mk_", "struct:"+name
+		}
+		if strings.HasPrefix(name, "Query") && strings.HasSuffix(name, "Response") {
+			pre, ty = "go_qr_", "qresp"
 		}
 		if len(args) == 0 {
 			return pre + name, ty
@@ -888,7 +904,7 @@ func (h *hTr) isErrorReturn(s ast.Stmt) bool {
 		return false
 	}
 	switch h.kind {
-	case "handler":
+	case "handler", "query":
 		return len(rs.Results) == 2 && h.t.show(rs.Results[0]) == "nil" && h.t.show(rs.Results[1]) != "nil"
 	case "err":
 		return len(rs.Results) == 1 && h.t.show(rs.Results[0]) != "nil" && h.env[h.t.show(rs.Results[0])] != "err"
@@ -907,7 +923,7 @@ func (h *hTr) isErrorBlock(b *ast.BlockStmt) bool {
 		return false
 	}
 	switch h.kind {
-	case "handler":
+	case "handler", "query":
 		return len(rs.Results) == 2 && h.t.show(rs.Results[0]) == "nil" && h.t.show(rs.Results[1]) != "nil"
 	case "err":
 		return len(rs.Results) == 1 && h.t.show(rs.Results[0]) != "nil"
@@ -1288,6 +1304,9 @@ func (h *hTr) stmt(s ast.Stmt) {
 				return
 			}
 		}
+		if h.kind == "query" && v.Else == nil && v.Init == nil && h.msgVar != "" && h.t.show(v.Cond) == h.msgVar+" == nil" && h.isErrorBlock(v.Body) {
+			return // a gRPC request is never nil when it reaches the keeper through the generated server
+		}
 		// if p != nil { A } else { B } on a pointer field: A runs with *p bound
 		if be, ok := v.Cond.(*ast.BinaryExpr); ok && be.Op == token.NEQ && h.t.show(be.Y) == "nil" && v.Else != nil {
 			if x, ty := h.tryExpr(be.X); strings.HasPrefix(ty, "opt:") {
@@ -1458,6 +1477,28 @@ func (h *hTr) stmt(s ast.Stmt) {
 		}
 		h.lines = append(h.lines, fmt.Sprintf("go_for_each (fun v_%s => %s ret tt) %s ;;;", elem.Name, strings.Join(body, " "), x))
 	case *ast.ReturnStmt:
+		if h.kind == "query" {
+			if len(v.Results) != 2 {
+				h.bad("%s", h.t.show(s))
+			}
+			if h.t.show(v.Results[0]) == "nil" && h.t.show(v.Results[1]) != "nil" {
+				h.lines = append(h.lines, "fail")
+				return
+			}
+			if h.t.show(v.Results[1]) != "nil" {
+				h.bad("%s", h.t.show(s))
+			}
+			ue, ok := v.Results[0].(*ast.UnaryExpr)
+			if !ok || ue.Op != token.AND {
+				h.bad("%s", h.t.show(s))
+			}
+			x, ty := h.expr(ue.X)
+			if ty != "qresp" {
+				h.bad("returns a %s", ty)
+			}
+			h.lines = append(h.lines, "ret "+x)
+			return
+		}
 		if h.kind == "val" {
 			if len(v.Results) != 1 {
 				h.bad("%s", h.t.show(s))
@@ -1892,6 +1933,130 @@ func translateGenesis(repo string, ints map[string]int64, scalarVars map[string]
 		sb.WriteString("\nFrom Coq Require Import String.\nOpen Scope string_scope.\n")
 		fmt.Fprintf(&sb, "Definition go_%s_translated : bool := true.\nDefinition go_%s_reason : string := \"\".\n", n, n)
 		out["GoG_"+n+".v"] = sb.String()
+	}
+	return out
+}
+
+// the fourteen single-answer gRPC queries of keeper/grpc_query_*.go (the five paginated ones hand a closure to the SDK's
+// query.Paginate and are not translated)
+var queryTable = [][3]string{ // Go method, model constructor, request fields passed to it (pb order)
+	{"LocalDomain", "QLocalDomain", ""}, {"LocalMessageVersion", "QMessageVersion", ""}, {"BurnMessageVersion", "QBurnMessageVersion", ""},
+	{"Roles", "QRoles", ""}, {"BurningAndMintingPaused", "QBurningAndMintingPaused", ""},
+	{"SendingAndReceivingMessagesPaused", "QSendingAndReceivingPaused", ""}, {"MaxMessageBodySize", "QMaxMessageBodySize", ""},
+	{"NextAvailableNonce", "QNextAvailableNonce", ""}, {"SignatureThreshold", "QSignatureThreshold", ""},
+	{"Attester", "QAttester", "Attester"}, {"PerMessageBurnLimit", "QBurnLimit", "Denom"},
+	{"TokenPair", "QTokenPair", "RemoteDomain RemoteToken"}, {"UsedNonce", "QUsedNonce", "SourceDomain Nonce"},
+	{"RemoteTokenMessenger", "QMessenger", "DomainId"},
+}
+
+func translateQueries(repo string, ints map[string]int64, scalarVars map[string]int64) (out map[string]string) {
+	out = map[string]string{}
+	notTranslated := func(name, reason string) string {
+		return fmt.Sprintf("(* NOT TRANSLATED: %s *)\nDefinition go_q_%s_translated : bool := false.\nDefinition go_q_%s_reason : string := %s.\nDefinition go_q_%s_ok : Prop := True.\nLemma go_q_%s_ok_proof : go_q_%s_ok.\nProof. exact I. Qed.\n",
+			strings.ReplaceAll(reason, "*)", "* )"), name, name, coqStr(reason), name, name, name)
+	}
+	defer func() {
+		if r := recover(); r != nil {
+			for _, q := range queryTable {
+				out["GoQ_"+q[0]+".v"] = notTranslated(q[0], fmt.Sprintf("the translator failed: %v", r))
+			}
+		}
+	}()
+	fset := token.NewFileSet()
+	ct := &codecTr{fset: fset, ints: ints}
+	structs := pbStructs(repo, fset)
+	scalars := map[string]int64{}
+	for k, v := range ints {
+		scalars[k] = v
+	}
+	for k, v := range scalarVars {
+		scalars[k] = v
+	}
+	found := map[string]*ast.FuncDecl{}
+	files, _ := filepath.Glob(filepath.Join(repo, "x/cctp/keeper", "grpc_query*.go"))
+	sort.Strings(files)
+	for _, f := range files {
+		if strings.HasSuffix(f, "_test.go") {
+			continue
+		}
+		af, err := parser.ParseFile(fset, f, nil, 0)
+		if err != nil {
+			continue
+		}
+		for _, d := range af.Decls {
+			if fd, ok := d.(*ast.FuncDecl); ok && fd.Recv != nil && fd.Body != nil && len(fd.Recv.List) == 1 && strings.TrimPrefix(ct.show(fd.Recv.List[0].Type), "*") == "Keeper" {
+				found[fd.Name.Name] = fd
+			}
+		}
+	}
+	imports := "From Coq Require Import Bool Arith.\nFrom Cctp Require Import Lib.Bytes Lib.SMap Lib.Text Lib.Hex Lib.Paginate Model.Codec Model.State Model.Attest Model.Ledger Model.Handlers Model.Genesis Model.Queries Proofs.MonadFacts Gen.GoSem Gen.GoSemGenesis Gen.GoSemQuery.\nClose Scope string_scope.\n\n"
+	for _, q := range queryTable {
+		n := q[0]
+		fd := found[n]
+		if fd == nil {
+			out["GoQ_"+n+".v"] = notTranslated(n, "no Keeper method of this name in grpc_query*.go")
+			continue
+		}
+		h := &hTr{t: ct, structs: structs, scalars: scalars, funcs: map[string]*funcInfo{}, env: map[string]string{}, lits: map[string]map[string]string{},
+			lower: map[string]bool{}, uses: map[string]bool{}, usesE: map[string]bool{}, derefs: map[string]string{}, kind: "query"}
+		var reason string
+		var params, pn []string
+		func() {
+			defer func() {
+				if r := recover(); r != nil {
+					if u, ok := r.(untranslatable); ok {
+						reason = string(u)
+						return
+					}
+					reason = fmt.Sprint(r)
+				}
+			}()
+			ps := fd.Type.Params.List
+			if len(fd.Recv.List[0].Names) != 1 || len(ps) != 2 || len(ps[1].Names) != 1 || !strings.HasPrefix(ct.show(ps[1].Type), "*types.Query") {
+				h.bad("signature")
+			}
+			h.recvK = fd.Recv.List[0].Names[0].Name
+			h.msgVar = ps[1].Names[0].Name
+			h.msgTy = strings.TrimPrefix(ct.show(ps[1].Type), "*types.")
+			if h.msgVar == "_" {
+				h.msgVar = ""
+			}
+			for _, f := range strings.Fields(q[2]) {
+				var ty string
+				for _, sf := range structs[h.msgTy] {
+					if sf.name == f {
+						ty = sf.ty
+					}
+				}
+				if ty == "" {
+					h.bad("request field %s", f)
+				}
+				params = append(params, fmt.Sprintf("(a_%s : %s)", f, coqType(ty)))
+				pn = append(pn, "a_"+f)
+			}
+			h.block(fd.Body.List)
+			if len(h.lines) == 0 || (!strings.HasPrefix(h.lines[len(h.lines)-1], "ret ") && h.lines[len(h.lines)-1] != "fail") {
+				h.bad("does not end in a return")
+			}
+		}()
+		if reason != "" {
+			out["GoQ_"+n+".v"] = notTranslated(n, reason)
+			continue
+		}
+		var sb strings.Builder
+		sb.WriteString(imports)
+		fmt.Fprintf(&sb, "Definition go_q_%s %s : M qresp :=\n  %s.\n\n", n, strings.Join(params, " "), strings.Join(h.lines, "\n  "))
+		args := strings.Join(pn, " ")
+		qc := q[1]
+		if args != "" {
+			qc = "(" + q[1] + " " + args + ")"
+		}
+		sb.WriteString("(* the translated query answers what the model's run_query answers, fails where it fails, panics where it panics, and changes nothing *)\n")
+		fmt.Fprintf(&sb, "Definition go_q_%s_ok : Prop := forall %s h, go_q_%s %s h = (match run_query (h_st h) %s with QOk r => ROk r | QErr => RErr | QPanic => RPanic end, h).\n", n, strings.TrimSpace(args+" "), n, args, qc)
+		fmt.Fprintf(&sb, "Lemma go_q_%s_ok_proof : go_q_%s_ok.\nProof. timeout 300 (unfold go_q_%s_ok, go_q_%s; go_query_eq). Qed.\n", n, n, n, n)
+		sb.WriteString("\nFrom Coq Require Import String.\nOpen Scope string_scope.\n")
+		fmt.Fprintf(&sb, "Definition go_q_%s_translated : bool := true.\nDefinition go_q_%s_reason : string := \"\".\n", n, n)
+		out["GoQ_"+n+".v"] = sb.String()
 	}
 	return out
 }
